@@ -11,37 +11,50 @@ MANIFEST = {
                      "histories as the special case) + differential correspondence of the model with the real String / "
                      "Variant / Xml::Variant / RefCount::Ptr code under a ledger allocator and a controlled scheduler",
         "text": "Theorems (Props.lean) over every reachable state of the Lean model (heap of counted blocks, handle slots owned by "
-                "threads, atomic steps inc / dec-and-test / plain counter read / alloc / in-place write / free): mt_safe, mt_ref_inflight, "
-                "mt_step_safe, mt_write_sole, mt_view_stable, mt_sched_safe, mt_quiescent_no_leak for all thread counts, programs and "
-                "schedules the step guards admit; enabledness under interleaving (mt_frame, mt_plan_stable, mt_step_enabled, "
-                "mt_call_enabled_pre/post/done: a thread with a pending String/Variant/Xml::Variant call always has an enabled step, "
-                "whatever the other threads do); single-threaded ref_counts_handles, freed_once_after_last, "
-                "no_inplace_write_while_shared, st_write_sole, st_quiet for all accepted API histories, with apiRun_total_partial / "
-                "apiRun_total_noNext: histories of String/Variant/Xml::Variant calls and of RefCount::Ptr `= new`/copy/operator=/`= Ptr()`/"
-                "swap on objects WITHOUT a next handle are never rejected (calls that create or walk `next` handles: conditional "
-                "theorems + concrete examples only); no_use_after_drop: no String/Variant/Xml::Variant step list reads a handle between "
-                "the decrement through it and the store that overwrites it (the model's `dec` forgets the pointer at once; for the "
-                "RefCount::Ptr calls this order is validated by the correspondence run only). Nested payloads are covered PARTIALLY: "
-                "ONE embedded handle per block, modelled for RefCount objects only (mt_safe_nested, mt_embedded_write_sole, "
-                "mt_embedded_take_on_release, mt_embedded_stable); NOT covered by any C09 theorem: several embedded handles per payload "
-                "(Variants inside list/array/map payloads, Xml element children), in-place writes through an embedded handle, the String "
-                "inside a Variant/Xml::Variant box (flat content in the model), hence the destructor cascade of a shared container "
-                "payload under interleaving. The model is tied to the current headers on every run: identical op lines are executed by "
+                "threads - top-level variables/temporaries and a FAMILY of handle slots embedded in every payload block -, atomic steps "
+                "inc / dec-and-test / plain counter read / alloc / in-place write / free, and on embedded handles incE / takeE / putE / takeF / "
+                "adoptF): mt_safe, mt_ref_inflight, mt_safe_nested, mt_step_safe, mt_write_sole, mt_view_stable, mt_sched_safe, "
+                "mt_quiescent_no_leak for all thread counts, programs and schedules the step guards admit; for every slot of the embedded "
+                "family: mt_embedded_write_sole, mt_embedded_take_on_release, mt_embedded_stable, mt_embedded_owner_stable, "
+                "mt_embedded_access_live (embedded handles are replaced only by the sole owner, taken out only by the releasing thread, "
+                "read-only while shared, never accessed inside a released block); enabledness under interleaving (mt_frame, "
+                "mt_plan_stable, mt_step_enabled, mt_call_enabled_pre/post/done) for the String/Variant/Xml::Variant calls; "
+                "single-threaded ref_counts_handles, freed_once_after_last, no_inplace_write_while_shared, st_write_sole, st_quiet for all "
+                "accepted API histories, and nested_st_quiet, nested_ref_counts_handles, nested_ref_split, nested_freed_once_after_last, "
+                "nested_no_inplace_write_while_shared, nested_states_reachable for all accepted histories of the calls on payloads with "
+                "SEVERAL embedded handles (list payloads holding shared Variants: append of a Variant variable, element read incl. from "
+                "the own payload, clone on mutable access = one increment per inner payload, in-place operator=(List) releasing the old "
+                "elements; Xml elements with children: append, child read, clone; all executed with the destructor cascade runC: the "
+                "releasing thread adopts the embedded handles, deletes the block, releases each of them, recursively); totality: "
+                "apiRun_total_partial / apiRun_total_noNext (String/Variant/Xml::Variant calls and Ptr calls on objects WITHOUT a next "
+                "handle are never rejected; calls that create or walk next handles and the nested calls: acceptance is a hypothesis, "
+                "validated by examples and by the correspondence run); no_use_after_drop now for ALL calls of Model.lean incl. every "
+                "RefCount::Ptr call and the cascade relP (ptr_stale_ok: for every object graph the step list never reads a handle between "
+                "the decrement through it and the store that overwrites it = the order of Ptr::operator= repaired by D37). NOT covered "
+                "by any C09 theorem: in-place writes through an embedded handle, the String inside a Variant/Xml::Variant box (flat "
+                "content, hence the cross-kind calls Variant = String variable / String = variant.toString()), boxed elements of "
+                "array/map payloads and Xml attributes, cascade completeness as a theorem (no handle left in a released block: ledger "
+                "and examples only). The model is tied to the current headers on every run: identical op lines are executed by "
                 "the compiled model and by a harness over the real classes whose allocator is a ledger (per payload: live flag, white-box "
-                "counter, number of releases; per handle: designated payload and content), single-threaded (exhaustive small scope + "
-                "random histories) and multi-threaded (2-3 threads with random programs over their own handles, atomics and hooked "
-                "counter reads as scheduling points, random schedules and all schedules of the first 10 points), comparing per-step "
-                "counter values and final states; an independent Python oracle checks value semantics, the object graph and ledger "
+                "counter, number of releases, embedded handles; per handle: designated payload and content), single-threaded (exhaustive "
+                "small scope + random histories) and multi-threaded (2-3 threads with random programs over their own handles, atomics and "
+                "hooked counter reads as scheduling points - including every element decrement of a destructor cascade -, random "
+                "schedules and all schedules of the first 10 points), comparing per-step counter values and final states; an independent "
+                "Python oracle checks value semantics (nested values through the embedded handles), the object graph and ledger "
                 "consistency on the implementation's output.",
         "note": "Trusted: Lean kernel + the three standard axioms; the hand translation of the API calls into step sequences "
-                "(Model.lean pre/post), validated by the correspondence run only; sequentially consistent atomics (__sync_* are "
-                "full barriers) - TSO/compiler reordering of the plain counter reads is not modelled; payload content is flat "
-                "except for the `next` handle embedded in RefCount objects (the String inside a Variant/Xml::Variant block and the list/array/map "
+                "(Model.lean pre/post, Nested.lean preN/postN/runC), validated by the correspondence run only; sequentially consistent "
+                "atomics (__sync_* are full barriers) - TSO/compiler reordering of the plain counter reads is not modelled; payload "
+                "content is flat except for the embedded handles of RefCount objects (next), Variant list payloads (boxed elements) and "
+                "Xml elements (children); the String inside a Variant/Xml::Variant block, element type/attributes and the list/array/map "
                 "nodes are internal allocations, checked only by the ledger's leak/double-free accounting at the end of each history; "
-                "cross-kind sharing Variant<->String is not in the correspondence); String::printf, resize and the writes to embedded "
-                "handles (plink) are exercised single-threaded only; allocation never fails; the controlled "
+                "the model deletes a dying container before it releases its elements (the real code after: the place of the plain "
+                "delete[] is not observable); at most 4 boxed elements / children per payload and no null element in the drivers' "
+                "layout (the calls are rejected alike by harness, model and oracle beyond that); String::printf, resize and the writes to "
+                "next handles (plink) are exercised single-threaded only; allocation never fails; the controlled "
                 "interleavings of plain counter reads need the add-only hook patch fixes/rc/hook-01 (without it those reads "
-                "execute together with the preceding atomic step, and the model is run the same way).",
+                "execute together with the preceding atomic step, and the model is run the same way). Partial: apiRun_total_partial, "
+                "apiStep_total_partial (no totality for next-walking and nested calls).",
         "design_ref": "DESIGN.md 3/C09",
     }
 }
@@ -616,6 +629,8 @@ def gen_mt_exhaustive(rng, hooks, nscen, depth, nt=2):
 
 
 BRANCH = {}
+import re
+EMB_RE = re.compile(r"[>,]b(\d+)")
 
 
 def count_branches(out):
@@ -648,10 +663,20 @@ def count_branches(out):
                 B["mt increment"] = B.get("mt increment", 0) + 1
     prev = None
     for o in out:
-        if " | " in o and " # " not in o:
+        if ">b" in o or ",b" in o:
+            B["nested: observations with handles embedded in list / element payloads or next"] = \
+                B.get("nested: observations with handles embedded in list / element payloads or next", 0) + 1
+            inner = EMB_RE.findall(o)
+            if len(inner) != len(set(inner)):
+                B["nested: inner payload held by >= 2 embedded handles (clone of the outer incremented it)"] = \
+                    B.get("nested: inner payload held by >= 2 embedded handles (clone of the outer incremented it)", 0) + 1
+        if " | " in o:
             nf = o.count(":F")
             if prev is not None and nf > prev:
-                B["st release of a payload"] = B.get("st release of a payload", 0) + nf - prev
+                if " # " not in o:
+                    B["st release of a payload"] = B.get("st release of a payload", 0) + nf - prev
+                if nf - prev >= 2:
+                    B["cascade: one call / run released >= 2 payloads"] = B.get("cascade: one call / run released >= 2 payloads", 0) + 1
             prev = nf
 
 
@@ -690,8 +715,10 @@ def check(ctx):
         "sequentially consistent atomics: the __sync_* builtins of Atomic.hpp are full barriers; reordering of the plain "
         "counter reads (TSO, compiler) is not modelled",
         "threads own disjoint handle objects; a handle object is used by one thread at a time (hand-over is a step of the owner)",
-        "payload content is flat: inner String / list nodes of Variant and Xml::Variant payloads are internal allocations "
-        "(only their leak / double-release accounting at the end of a history is checked)",
+        "payload content is flat except for embedded handles (next of counted objects, boxed elements of Variant lists, children of Xml "
+        "elements): the inner String of a box and list nodes are internal allocations (only their leak / double-release accounting at "
+        "the end of a history is checked)",
+        "at most 4 boxed elements / children per container payload and no null elements in the drivers' slot layout (famK)",
         "allocation never fails; block ids are never reused (the ledger allocator of the harness keeps released memory)",
     ]
     proof_ok = C.proof_stage(ctx, PROPS, [DRIVER], leanchecker=(ctx.tier == "thorough"))
@@ -727,10 +754,10 @@ def check(ctx):
             f"of their first {d3} points; a thread is descheduled before and after every atomic operation on a payload counter (counter-read hooks {'present' if hooks else 'ABSENT: plain reads are not scheduling points'}); "
             "distinct_nontrivial = distinct (op-kind set, final observation) among histories in which a payload was shared")
         ctx.cov["exhaustive"] = False
-        ctx.cov["open_statements"] = ["payloads with several embedded handles (Variants inside list/map payloads, Xml element children), in-place writes "
-                                      "through an embedded handle and the cross-kind calls Variant = String variable / String = variant.toString() "
-                                      "(Props.lean OPEN block)",
-                                      "totality and no_use_after_drop for the RefCount::Ptr calls that create or walk `next` handles (Props.lean OPEN blocks)"]
+        ctx.cov["open_statements"] = ["in-place writes through an embedded handle and the cross-kind calls Variant = String variable / String = "
+                                      "variant.toString() (the String inside a box is flat); boxed elements of array/map payloads (Props.lean OPEN block)",
+                                      "totality of the RefCount::Ptr calls that create or walk `next` handles and of the nested calls (fuel of the cascade), "
+                                      "cascade completeness as a theorem (Props.lean OPEN blocks)"]
         ctx.cov["exhaustive_scope"] = (f"single-threaded length<={depth} per kind: {len(ex)} histories; "
                                        f"schedules: all of {{t1,t2}}^{d2} for {len(mte) // 2 ** d2} scenarios, all of {{t1,t2,t3}}^{d3} for {len(mte3) // 3 ** d3} scenarios")
         ops = {}
